@@ -10,7 +10,7 @@ import jax
 import jax.numpy as jnp
 
 from ..core import obligation
-from .. import px, sym
+from .. import px, jx, sym
 from ..px import NP
 from ..sym import Eq, Holds, v_mul, v_sub, v_le
 from ..jxh import Case
@@ -671,6 +671,345 @@ def _ho_lift(base1, base):
 
 # ------------------------------------------------------------------------------------------ O3: param_index_update (shared with C19-O3)
 obligation(P, 'O3.param_index_update', cap=300)(c19.o3)
+
+
+# ------------------------------------------------------------------------------------------ O4: helper VJPs of MechanicsInverse (translation validation)
+import contextlib
+import io
+import types
+
+ONE_EL_X = [[0.0, 0.0], [1.0, 0.0], [0.0, 1.0]]
+O4_BOX = dict(U=0.1, X=0.05, av=1.0, iv=0.05, dt=(0.1, 1.0))     # region the violation search and the replay stay in (real tensor functions are well defined there)
+
+
+def _o4mods():
+    from optimism import Mechanics, FunctionSpace, Interpolants, QuadratureRule, Mesh
+    from optimism.inverse import MechanicsInverse, AdjointFunctionSpace
+    return Mechanics, FunctionSpace, Interpolants, QuadratureRule, Mesh, MechanicsInverse, AdjointFunctionSpace
+
+
+def _quiet():
+    return contextlib.redirect_stdout(io.StringIO())
+
+
+def sur_log(dispGrad, stateOld):
+    """surrogate for HyperViscoelastic._compute_elastic_logarithmic_strain: an arbitrary smooth symmetric-tensor function of
+    (dispGrad, state) — Green strain of F (2I - Fv): polynomial, so both sides stay in QF_NRA without uninterpreted Jacobians"""
+    F = dispGrad + jnp.identity(3)
+    Fe = F @ (2.0 * jnp.identity(3) - stateOld.reshape((3, 3)))
+    return 0.5 * (Fe.T @ Fe - jnp.identity(3))
+
+
+def sur_exp(A):
+    """surrogate for jax.scipy.linalg.expm: second-order Taylor polynomial"""
+    return jnp.identity(3) + A + 0.5 * A @ A
+
+
+class O4Material:
+    """a real material model plus the trace-time stubs under which BOTH sides (helper and reference) are traced"""
+
+    def __init__(self, kind):
+        self.kind = kind
+        if kind == 'visco':
+            from optimism.material import HyperViscoelastic as HV
+            self.mod = HV
+            with _quiet():
+                self.model = HV.create_material_model_functions({'equilibrium bulk modulus': 10.0, 'equilibrium shear modulus': 1.0,
+                                                                 'non equilibrium shear modulus': 2.0, 'relaxation time': 0.7})
+            self.ns = 9
+            self.iv0 = onp.eye(3).reshape(9)
+            self.rate_dependent = True
+        elif kind == 'j2':
+            from optimism.material import J2Plastic as J2
+            self.mod = J2
+            E = 100.0
+            self.model = J2.create_material_model_functions({'elastic modulus': E, 'poisson ratio': 0.321, 'yield strength': 0.003 * E, 'kinematics': 'small deformations',
+                                                            'hardening model': 'linear', 'hardening modulus': 1e-2 * E})
+            self.ns = 10
+            self.iv0 = onp.zeros(10)
+            self.rate_dependent = False
+        elif kind == 'neo':
+            from optimism.material import Neohookean as NH
+            self.mod = NH
+            self.model = NH.create_material_model_functions({'elastic modulus': 10.0, 'poisson ratio': 0.25, 'version': 'coupled'})
+            self.ns = 0
+            self.iv0 = onp.zeros(0)
+            self.rate_dependent = False
+        else:
+            raise ValueError(kind)
+
+    def stubs(self):
+        from . import c08
+        st = contextlib.ExitStack()
+        st.enter_context(c08.det_by_closed_form())
+        if self.kind == 'visco':
+            st.enter_context(c11_patched(self.mod, _compute_elastic_logarithmic_strain=sur_log, linalg=types.SimpleNamespace(expm=sur_exp)))
+        if self.kind == 'j2':
+            from . import c09
+            st.enter_context(c09.stubbed())
+        return st
+
+    STUB_NOTES = {
+        'visco': 'HyperViscoelastic traced with _compute_elastic_logarithmic_strain := Green strain of F(2I - Fv) and expm := I + A + A^2/2 (polynomial surrogates, on BOTH sides; the real '
+                 'dt-dependent _compute_state_increment/_energy_density stay on the path); replay runs the unmodified material',
+        'j2': 'J2Plastic traced with ScalarRootFind.rtsafe_ replaced by its contract (c09: fresh root, hash-consed on everything the solver depends on, in bracket, |r| <= r_tol) on BOTH sides; '
+              'find_root/custom_root and its tangent rule are the real code; replay runs the unmodified material',
+        'neo': 'Neohookean (coupled version): log is an uninterpreted function, hash-consed across both sides',
+    }
+
+
+@contextlib.contextmanager
+def c11_patched(mod, **kw):
+    old = {k: getattr(mod, k) for k in kw}
+    try:
+        for k, v in kw.items():
+            setattr(mod, k, v)
+        yield
+    finally:
+        for k, v in old.items():
+            setattr(mod, k, v)
+
+
+class O4Setup:
+    def __init__(self, mat):
+        Mech, FS, I, QR, M, MI, AFS = _o4mods()
+        self.mat = mat
+        self.base = M.construct_mesh_from_basic_data(jnp.array(ONE_EL_X), jnp.array([[0, 1, 2]]), {'block': jnp.arange(1)})
+        self.qr = QR.create_quadrature_rule_on_triangle(1)
+        self.sh = I.compute_shapes(self.base.parentElement, self.qr.xigauss)
+
+    # -- pieces shared by helper side and reference side constructions (both built from the public API)
+    def fs_direct(self, X):
+        Mech, FS, I, QR, M, MI, AFS = _o4mods()
+        return FS.construct_function_space_from_parent_element(M.mesh_with_coords(self.base, X), self.sh, self.qr)
+
+    def mech(self, X):
+        Mech = _o4mods()[0]
+        return Mech.create_mechanics_functions(self.fs_direct(X), 'plane strain', self.mat.model)
+
+    def user_energy(self):
+        """the energy function users hand to create_*_residual_inverse_functions (pattern of the repository's inverse tests):
+        adjoint function space on the given coordinates; q = (prescribed displacement field, dt)"""
+        Mech, FS, I, QR, M, MI, AFS = _o4mods()
+
+        def energy(u, q, iv, x):
+            afs = AFS.construct_function_space_for_adjoint(x, self.sh, self.base, self.qr)
+            mf = Mech.create_mechanics_functions(afs, mode2D='plane strain', materialModel=self.mat.model)
+            return mf.compute_strain_energy(u + q[0], iv, q[1])
+        return energy
+
+    def ref_residual(self, u, q, iv, x):
+        """reference residual: grad_U of the public compute_strain_energy on the function space built directly on the moved mesh"""
+        mf = self.mech(x)
+        return jax.grad(lambda w: mf.compute_strain_energy(w + q[0], iv, q[1]))(u)
+
+    # -- the (helper, reference) pairs; every function takes the full input list (X, U, iv, av, vx, Ubc, dt)
+    def pairs(self):
+        Mech, FS, I, QR, M, MI, AFS = _o4mods()
+        mat, ns = self.mat, self.mat.ns
+        out = {}
+
+        def inv_funcs(X):
+            return MI.create_ivs_update_inverse_functions(self.fs_direct(X), 'plane strain', mat.model)
+
+        if ns:
+            def jac_ivs_prev(X, U, iv, av, vx, Ubc, dt):
+                a = inv_funcs(X).ivs_update_jac_ivs_prev(U, iv, dt)
+                J = jax.jacfwd(lambda z: self.mech(X).compute_updated_internal_variables(U, z, dt))(iv)
+                return a, J[:, :, :, 0, 0, :]
+            out['ivs_update_jac_ivs_prev'] = jac_ivs_prev
+
+            def disp_vjp(X, U, iv, av, vx, Ubc, dt):
+                a = inv_funcs(X).ivs_update_jac_disp_vjp(U, iv, av, dt)
+                b = jax.vjp(lambda z: self.mech(X).compute_updated_internal_variables(z, iv, dt), U)[1](av)[0]
+                return a, b
+            out['ivs_update_jac_disp_vjp'] = disp_vjp
+
+            def coords_vjp(X, U, iv, av, vx, Ubc, dt):
+                a = inv_funcs(jnp.array(ONE_EL_X)).ivs_update_jac_coords_vjp(U, iv, X, av, dt)      # the helper's own function space holds OTHER coordinates
+                b = jax.vjp(lambda z: self.mech(z).compute_updated_internal_variables(U, iv, dt), X)[1](av)[0]
+                return a, b
+            out['ivs_update_jac_coords_vjp'] = coords_vjp
+
+            def default_dt(X, U, iv, av, vx, Ubc, dt):
+                inv = inv_funcs(X)
+                a = (inv.ivs_update_jac_ivs_prev(U, iv), inv.ivs_update_jac_disp_vjp(U, iv, av), inv.ivs_update_jac_coords_vjp(U, iv, X, av))
+                mf = self.mech(X)
+                J = jax.jacfwd(lambda z: mf.compute_updated_internal_variables(U, z, 0.0))(iv)
+                b = (J[:, :, :, 0, 0, :], jax.vjp(lambda z: mf.compute_updated_internal_variables(z, iv, 0.0), U)[1](av)[0],
+                     jax.vjp(lambda z: self.mech(z).compute_updated_internal_variables(U, iv, 0.0), X)[1](av)[0])
+                return a, b
+            out['ivs_update_default_dt_is_zero'] = default_dt
+
+            def res_ivs_vjp(X, U, iv, av, vx, Ubc, dt):
+                q = (Ubc, dt)
+                a = MI.create_path_dependent_residual_inverse_functions(self.user_energy()).residual_jac_ivs_prev_vjp(U, q, iv, X, vx)
+                b = jax.vjp(lambda z: self.ref_residual(U, q, z, X), iv)[1](vx)[0]
+                return a, b
+            out['residual_jac_ivs_prev_vjp'] = res_ivs_vjp
+
+            def res_coords_vjp(X, U, iv, av, vx, Ubc, dt):
+                q = (Ubc, dt)
+                a = MI.create_path_dependent_residual_inverse_functions(self.user_energy()).residual_jac_coords_vjp(U, q, iv, X, vx)
+                b = jax.vjp(lambda z: self.ref_residual(U, q, iv, z), X)[1](vx)[0]
+                return a, b
+            out['residual_jac_coords_vjp[path dependent]'] = res_coords_vjp
+        else:
+            def res_coords_vjp0(X, U, iv, av, vx, Ubc, dt):
+                q = (Ubc, dt)
+                e4 = self.user_energy()
+                iv0 = jnp.zeros((1, 1, 0))
+                a = MI.create_residual_inverse_functions(lambda u, q_, x: e4(u, q_, iv0, x)).residual_jac_coords_vjp(U, q, X, vx)
+                b = jax.vjp(lambda z: self.ref_residual(U, q, iv0, z), X)[1](vx)[0]
+                return a, b
+            out['residual_jac_coords_vjp'] = res_coords_vjp0
+        return out
+
+
+O4_NAMES = ('X', 'U', 'iv', 'av', 'vx', 'Ubc', 'dt')
+
+
+def o4_example(mat, rng):
+    ns = mat.ns
+    X = onp.asarray(ONE_EL_X) + rng.uniform(-0.8, 0.8, (3, 2)) * O4_BOX['X']
+    U = rng.uniform(-0.8, 0.8, (3, 2)) * O4_BOX['U']
+    iv = (mat.iv0 + rng.uniform(-0.8, 0.8, ns) * O4_BOX['iv']).reshape(1, 1, ns)
+    if mat.kind == 'j2':
+        iv = iv.copy()
+        iv[0, 0, 0] = abs(iv[0, 0, 0])
+    av = rng.uniform(-0.8, 0.8, (1, 1, ns))
+    vx = rng.uniform(-0.8, 0.8, (3, 2))
+    Ubc = rng.uniform(-0.5, 0.5, (3, 2)) * O4_BOX['U']
+    dt = onp.asarray(rng.uniform(0.3, 0.8))
+    return [X, U, iv, av, vx, Ubc, dt]
+
+
+def o4_box(inp, mat):
+    cs = []
+
+    def rng_(arr, centre, w):
+        for v, c in zip(sym.flat(arr), sym.flat(centre)):
+            cs.extend([v_le(float(c) - w, v), v_le(v, float(c) + w)])
+    rng_(inp['X'], onp.asarray(ONE_EL_X), O4_BOX['X'])
+    rng_(inp['U'], onp.zeros((3, 2)), O4_BOX['U'])
+    rng_(inp['Ubc'], onp.zeros((3, 2)), O4_BOX['U'])
+    rng_(inp['iv'], mat.iv0, O4_BOX['iv'])
+    rng_(inp['av'], onp.zeros(mat.ns), O4_BOX['av'])
+    rng_(inp['vx'], onp.zeros((3, 2)), O4_BOX['av'])
+    cs += [v_le(O4_BOX['dt'][0], inp['dt'][()]), v_le(inp['dt'][()], O4_BOX['dt'][1])]
+    return cs
+
+
+def structural_linear_solve(ctx, eqn, iv):
+    """jx.do_linear_solve memoises on the identity of the matvec jaxpr object; helper and reference trace `solve` separately
+    (equal jaxprs, different objects), so the memo key used here is the printed jaxpr + the operand terms: the two sides share
+    the relational unknowns of equal linear systems"""
+    cl = eqn.params['const_lengths']
+    jp = eqn.params['jaxprs']
+    nm = cl.matvec
+    b = iv[nm + cl.vecmat + cl.solve + cl.transpose_solve:]
+    key = ('cls_structural', str(jp.matvec.jaxpr)) + tuple(jx.term_key(x) for c_ in iv[:nm] for x in c_.ravel() if x is not jx.POISON) \
+        + tuple(jx.term_key(x) for bb in b for x in bb.ravel())
+    if key not in ctx.cache:
+        ctx.cache[key] = jx.do_linear_solve(ctx, eqn, iv)
+        ctx.keep = getattr(ctx, 'keep', [])
+        ctx.keep.append(iv)          # keep the operand terms alive: z3 AST ids are reused after garbage collection
+    return ctx.cache[key]
+
+
+def prove_pair(h, setup, pname, fn, cap=60):
+    """translation validation of one helper: helper == reference for ALL inputs (one solver query over every input symbol);
+    when that query is not unsat, a counterexample is searched on slices (inputs pinned to seeded sample points, dt and the
+    cotangents free in the replay box) and replayed on the UNMODIFIED material: real helper vs real reference"""
+    mat = setup.mat
+    name = '%s[%s]' % (pname, mat.kind)
+    qn = '%s/%s' % (h.ob, name)
+    rng = onp.random.default_rng(h.seed + 7)
+    example = o4_example(mat, rng)
+
+    def traced(*args):
+        with mat.stubs():
+            return fn(*args)
+
+    def real_eval(vals):
+        args = [jnp.asarray(onp.asarray(vals[k], dtype=float).reshape(onp.shape(e))) for k, e in zip(O4_NAMES, example)]
+        a, b = fn(*args)            # no stubs: the unmodified material model, the real helper, the real reference
+        la, lb = jax.tree_util.tree_leaves(a), jax.tree_util.tree_leaves(b)
+        fa = onp.concatenate([onp.asarray(t, dtype=float).ravel() for t in la])
+        fb = onp.concatenate([onp.asarray(t, dtype=float).ravel() for t in lb])
+        return fa, fb
+
+    def concrete(vals):
+        fa, fb = real_eval(vals)
+        sc = float(onp.max(onp.abs(fb))) + float(onp.max(onp.abs(fa))) + 1e-300
+        return True, Eq(list(fa), list(fb), scale=sc), dict(helper=fa.tolist()[:12], reference=fb.tolist()[:12])
+    if h.replay is not None:
+        if h.replay.get('query') == qn:
+            h.prove(name, [], Eq([0.0], [0.0]), inputs={}, concrete=concrete)
+        return
+    ctx = jx.Ctx()
+    ctx.hooks['custom_linear_solve'] = structural_linear_solve
+    c = Case(h, traced, dict(zip(O4_NAMES, example)), sampler=lambda r: o4_example(mat, r), label=name, validate=2, jit=False, ctx=ctx)
+    a, b = c.out
+    fa = [t for l in jax.tree_util.tree_leaves(a) for t in sym.flat(l)]
+    fb = [t for l in jax.tree_util.tree_leaves(b) for t in sym.flat(l)]
+    assert len(fa) == len(fb) and len(fa) > 0
+    atom = Eq(fa, fb, name='helper_equals_reference')
+    dt = c.inp['dt'][()]
+    base = c.side(denoms=True) + [v_le(0.0, dt)]
+    st, _, _, _, _ = sym.solve([sym.tob(x) for x in base] + [atom.neg(0)], cap, order=('core', 'nlsat'))
+    if st == 'unsat':
+        return h.prove(name, base, atom, inputs=c.inp, concrete=concrete, cap=cap, order=('core', 'nlsat'))
+    # counterexample search on slices
+    for k in range(4):
+        pin_vals = o4_example(mat, onp.random.default_rng(h.seed + 100 + k))
+        pins = []
+        for nm, val in zip(O4_NAMES, pin_vals):
+            if nm in ('dt', 'av', 'vx'):
+                continue
+            for v, x in zip(sym.flat(c.inp[nm]), onp.asarray(val).ravel()):
+                pins.append(sym.v_eq(v, float(x)))
+        sliced = base + pins + o4_box(c.inp, mat)
+        st2, _, _, _, _ = sym.solve([sym.tob(x) for x in sliced] + [atom.neg(1e-5)], 20, order=('nlsat', 'core'))
+        if st2 == 'sat':
+            return h.prove(name, sliced, atom, inputs=c.inp, concrete=concrete, cap=20, order=('nlsat', 'core'),
+                           note='the all-input query returned %s; counterexample found on slice %d (X, U, iv, Ubc pinned to a seeded sample)' % (st, k))
+    return h.prove(name, base, atom, inputs=c.inp, concrete=concrete, cap=cap, order=('core', 'nlsat'))
+
+
+def _o4_meta(h, mat):
+    Mech, FS, I, QR, M, MI, AFS = _o4mods()
+    h.encoded(MI.create_ivs_update_inverse_functions, MI.create_path_dependent_residual_inverse_functions, MI.create_residual_inverse_functions,
+              MI._compute_field_gradient, MI._compute_element_field_gradient, MI._compute_updated_internal_variables_gradient,
+              Mech.create_mechanics_functions, Mech._compute_updated_internal_variables, Mech._compute_strain_energy, mat.model.compute_state_new, mat.model.compute_energy_density)
+    h.bounds('ONE P1 element, 1-point rule, plane strain; nodal coordinates X (3x2), displacements U, prescribed field Ubc, internal variables iv (1x1x%d), cotangents av / vx, '
+             'time step dt >= 0: ALL symbolic (traced), the query quantifies over every real value (no box); the box |U|<=%g, |X-X0|<=%g, |iv-iv0|<=%g, %g<=dt<=%g only '
+             'confines the counterexample search and the replay' % (mat.ns, O4_BOX['U'], O4_BOX['X'], O4_BOX['iv'], O4_BOX['dt'][0], O4_BOX['dt'][1]))
+    h.assume_note('translation validation: helper and reference are traced into ONE jaxpr and interpreted in ONE JX context, so uninterpreted applications, havocs and relational linear solves '
+                  'are hash-consed across both sides', O4Material.STUB_NOTES[mat.kind],
+                  'reference = jax.vjp / jax.jacfwd of the PUBLIC Mechanics functions (compute_updated_internal_variables; grad_U compute_strain_energy) on the function space built by '
+                  'construct_function_space_from_parent_element on the moved mesh; the energy handed to the residual helpers follows the repository\'s inverse tests (adjoint function space, q = (Ubc, dt))',
+                  'symbolic denominators are assumed non-zero (1 + dt/tau, dt in the viscous dissipation, det J of the element)',
+                  'jnp.linalg.det (3x3): its custom JVP (pivoted LU) is replaced at trace time by the derivative of JAX\'s own closed-form primal, on both sides (as in C08)')
+    h.outside('meshes with more than one element (the helpers vmap the same element kernels over conns), other quadrature rules, axisymmetric mode and pressure projection (NotImplementedError in the helpers); '
+              'accuracy of the real tensor functions (the stubs are arbitrary smooth surrogates: the claim is equality of the two derivative programs for the surrogate material family)')
+
+
+def _reg_o4(kind, tiers, cap):
+    def ob(h):
+        mat = O4Material(kind)
+        _o4_meta(h, mat)
+        setup = O4Setup(mat)
+        for pname, fn in setup.pairs().items():
+            prove_pair(h, setup, pname, fn)
+    ob.__doc__ = ('each helper of inverse/MechanicsInverse.py equals an independently built reference (jax.vjp / jacfwd of the public Mechanics functions) for ALL '
+                  'coordinates, displacements, internal variables, cotangents and time steps — material: %s' % kind)
+    obligation(P, 'O4.helper_vjps[%s]' % kind, tiers=tiers, cap=cap)(ob)
+
+
+_reg_o4('visco', ('quick', 'thorough'), 600)
+_reg_o4('neo', ('quick', 'thorough'), 600)
+_reg_o4('j2', ('quick', 'thorough'), 900)
 
 
 DESIGNED_NOT_REGISTERED = []
